@@ -14,7 +14,8 @@ ID = "C03"
 RULE = ("certified conforming tetrahedral meshes with closed manifold boundary from the volume zoo (Kuhn / 5-tet blocks and random sub-blocks, "
         "3-D Delaunay, stars, edge rings, anchors, disjoint unions; renumbered; cell vertex order permuted arbitrarily, or by even permutations "
         "of (S)-positive cells for the orientation clause); per mesh several fresh objects driven through the accessor script in different orders; "
-        "non-trivial = at least 6 cells with an interior face and an interior edge; distinct = distinct (vertex count, cell list) hash")
+        "non-trivial = at least 6 cells with an interior face and an interior edge; distinct = distinct (vertex count, cell list) hash"
+        "; variants: units 1e-9..1e5, boxes of 320-480 cells, single cells refined by interior insertions in interior-first/last/random numbering, embeddings collapsed onto a plane (embedding-free clauses only), save/reload routes")
 REQUIRED = {"vconn": 3000, "order/batches": 300, "order_equal": 30, "boundary/enable": 20, "boundary/standalone": 20, "maps": 100}
 CASE_TIMEOUT = {"quick": 30.0, "thorough": 600.0}
 ASSUMPTIONS = ["inputs are conforming tetrahedral meshes whose boundary is a closed manifold surface, without unused vertices",
